@@ -3,6 +3,7 @@ package props
 // C09 — the pool talks to a host exactly while that host has a live connection.
 
 import (
+	"context"
 	"fmt"
 	"math/big"
 	"runtime"
@@ -141,8 +142,77 @@ func c09Case(rt *rapid.T, rec *vt.Rec) {
 	}
 	n := rapid.IntRange(3, 16).Draw(rt, "steps")
 	for k := 0; k < n; k++ {
-		op := rapid.SampledFrom([]string{"connect", "connect", "close", "close", "probe", "closeDuring", "reregDuring", "failedReconnect", "reconnectRace", "advance"}).Draw(rt, "op")
+		op := rapid.SampledFrom([]string{"connect", "connect", "close", "close", "probe", "closeDuring", "reregDuring", "failedReconnect", "reconnectRace", "advance", "closeDuringConnect", "closeWithStoreFault"}).Draw(rt, "op")
 		switch op {
+		case "closeDuringConnect":
+			// a host registers on a new connection and that very connection closes while the registration is still
+			// inside the store: whatever order the two finish in, the closed connection must not stay registered
+			h := rapid.IntRange(0, nHosts-1).Draw(rt, "host")
+			entered := make(chan struct{}, 4)
+			release := make(chan struct{})
+			s.ys.setHook(func(method string) error {
+				if method != "SetNode" {
+					return nil
+				}
+				entered <- struct{}{}
+				<-release
+				return nil
+			})
+			ac2 := s.openConn(h, "")
+			cdone := make(chan error, 1)
+			go func() {
+				// (the reply can never arrive on the closed connection: give the call a deadline)
+				a := s.agents[h]
+				req := s.connectReq(true, "geth", "")
+				n := s.nonce(a.id.nodeID)
+				ctx, cancel := context.WithTimeout(context.Background(), 10*time.Second)
+				defer cancel()
+				var resp pool.ConnectResponse
+				cdone <- ac2.c.agentSide.Call(ctx, &resp, "vipnode_connect", mustSign(a.id.key, "vipnode_connect", a.id.nodeID, n, req), a.id.nodeID, n, req)
+			}()
+			<-entered
+			s.model.connect(s.agents[h].id.nodeID, ac2.id, true, "geth", "")
+			s.closeConn(ac2)
+			synctest.Wait()
+			close(release)
+			<-cdone
+			s.ys.setHook(nil)
+			synctest.Wait()
+			logf("host %s registers on conn#%d, which closes while the registration is inside the store", s.agents[h].id.name, ac2.id)
+			classes["close-during-connect"] = true
+			classes["close-current"] = true
+		case "closeWithStoreFault":
+			// the store fails every read while a host's current connection closes: unregistering a closed
+			// connection must not depend on the store
+			var live []int
+			for i := 0; i < nHosts; i++ {
+				if _, ok := s.model.liveHost(s.agents[i].id.nodeID); ok {
+					live = append(live, i)
+				}
+			}
+			if len(live) == 0 {
+				continue
+			}
+			h := rapid.SampledFrom(live).Draw(rt, "victim")
+			cid, _ := s.model.liveHost(s.agents[h].id.nodeID)
+			var victim *agentConn
+			for _, ac := range s.agents[h].conns {
+				if ac.id == cid {
+					victim = ac
+				}
+			}
+			s.ys.setHook(func(method string) error {
+				if strings.HasPrefix(method, "Get") || method == "NodePeers" || method == "ActiveHosts" {
+					return errScripted
+				}
+				return nil
+			})
+			s.closeConn(victim)
+			synctest.Wait()
+			s.ys.setHook(nil)
+			logf("conn#%d of host %s closes while the store fails every read", cid, s.agents[h].id.name)
+			classes["close-store-fault"] = true
+			classes["close-current"] = true
 		case "connect":
 			h := rapid.IntRange(0, nHosts-1).Draw(rt, "host")
 			if len(s.agents[h].conns) > 0 {
